@@ -39,6 +39,10 @@ CHECKS = {
  "C14": dict(engine="medium", cat="exploration", ref="4/C14",
    technique="deterministic simulation of the byte source: all Next/SkipNext choice strings x capability profiles x delivery plans on reference-built archives; metadata checked against the reference section table and consumption observed at the source seam",
    text="Exhaustive over choice strings for images of <=6 blocks and over the six reader capability profiles; images and chunkings sampled. The high-water mark of the simulated source decides the 'never consumed past the payload' clause."),
+ "C08": dict(engine="sched", cat="exploration", ref="4/C08",
+   technique="deterministic simulation of the goroutine schedule: go-car's mutexes and file types substituted by simulator types, all tasks parked at every lock / simulated I/O / client yield inside a testing/synctest bubble, a seeded PRNG picks who runs (replayable pick list); recorded history checked for linearizability with porcupine; separate race-detector pass for the memory-level clause",
+   text="Seeded search over interleavings of 2-16 client tasks on one shared store: no panic, no deadlock, linearizable history against the map+typestate model, each acknowledged block exactly once in the finalized file. The 'no data races' clause is decided by the Go race detector on the same programs under the runtime's own schedules (monitoring, not simulation) because memory accesses cannot be intercepted at any seam.",
+   note="lock model without writer preference; channel hand-offs of key listings are not scheduling points; race pass is sound but schedule-dependent; " + TRUST),
 }
 
 NA = {
@@ -53,6 +57,8 @@ NA = {
 }
 
 ENGINES = [
+ dict(name="sched", path="harness/schedw/sched.go", serves_properties=["C08"], kind_free_text="seeded cooperative scheduler over substituted mutexes and simulated I/O inside a testing/synctest bubble (go1.26.8), porcupine linearizability check"),
+ dict(name="race", path="harness/h/race.go", serves_properties=["C08"], kind_free_text="same client programs with real goroutines under the Go race detector (runtime monitoring; one clause of C08 only)"),
  dict(name="medium", path="harness/h/medium_image.go", serves_properties=["C02", "C03", "C13", "C14", "C09"], kind_free_text="reference-built archives, medium faults (truncation, bit flips, field boundary values, extents), simulated sources with capability profiles and adversarial delivery"),
  dict(name="crash", path="harness/h/crash.go", serves_properties=["C06"], kind_free_text="crash-point enumeration over the simulated disk's mutation log, restart, recovery and continuation oracles"),
  dict(name="fault", path="harness/h/fault.go", serves_properties=["C16"], kind_free_text="transient write-error / short-write injection at every write call and byte of a session, continuation oracle"),
